@@ -276,36 +276,46 @@ impl E2Run for Dhcp {
         }
         let mut holder: BTreeMap<[u8; 4], u64> = BTreeMap::new();
         let mut acked_to: BTreeMap<u64, Vec<[u8; 4]>> = BTreeMap::new();
+        // the server's view: an Ack happens when it is sent, a Release when its
+        // (earliest copy) is delivered; at equal times the Release counts first
+        let mut server_events: Vec<(u64, u8, u64, [u8; 4], Option<u64>)> = vec![];
         for f in state.frames.iter().filter(|f| f.protocol == ipv4 && f.bytes.len() > 28 && f.bytes[9] == 17 && f.copies > 0) {
             let Ok(Ok(m)) = catching(|| DhcpMessage::from_bytes(f.bytes[28..].iter().copied())) else {
                 continue;
             };
             let ip = m.your_ip.to_bytes();
             match m.msg_type {
-                MessageType::Ack => {
-                    let Some(mac) = f.destination else { continue };
-                    out.count("acks_on_wire");
-                    if let Some(h) = holder.get(&ip) {
-                        if *h != mac {
-                            out.violate(Violation::new(
-                                "address-leased-twice",
-                                "",
-                                format!("{ip:?} was acknowledged to the client with MAC {mac:#x} while the client with MAC {h:#x} holds it and has not released it"),
-                            ));
-                        }
-                    }
-                    holder.insert(ip, mac);
-                    acked_to.entry(mac).or_default().push(ip);
-                    let v = u32::from_be_bytes(ip);
-                    if v < start || v > end {
-                        out.violate(Violation::new("outside-pool", "", format!("{ip:?} is not in the server's pool")));
-                    }
-                }
+                MessageType::Ack => server_events.push((f.time_ms, 1, f.event, ip, f.destination)),
                 MessageType::Release => {
-                    out.count("releases_on_wire");
-                    holder.remove(&ip);
+                    let d = f.delays.iter().copied().min().unwrap_or(0);
+                    server_events.push((f.time_ms + d, 0, f.event, ip, None));
                 }
                 _ => {}
+            }
+        }
+        server_events.sort();
+        for (_t, kind, _ev, ip, dest) in server_events {
+            if kind == 1 {
+                let Some(mac) = dest else { continue };
+                out.count("acks_on_wire");
+                if let Some(h) = holder.get(&ip) {
+                    if *h != mac {
+                        out.violate(Violation::new(
+                            "address-leased-twice",
+                            "",
+                            format!("{ip:?} was acknowledged to the client with MAC {mac:#x} while the client with MAC {h:#x} holds it and no release of it had reached the server"),
+                        ));
+                    }
+                }
+                holder.insert(ip, mac);
+                acked_to.entry(mac).or_default().push(ip);
+                let v = u32::from_be_bytes(ip);
+                if v < start || v > end {
+                    out.violate(Violation::new("outside-pool", "", format!("{ip:?} is not in the server's pool")));
+                }
+            } else {
+                out.count("releases_on_wire");
+                holder.remove(&ip);
             }
         }
         // what the clients learnt
